@@ -60,6 +60,9 @@ def install_kernel_abstraction(I, ctx):
                 later = zand(same_cfg, x[0] <= y[0], x[1] <= y[1], x[2] <= y[2], x[3] <= y[3], y[0] + y[1] + y[2] + y[3] <= y[4],
                              z3.Implies(x[8], y[8]), z3.Implies(x[8], zand(zeq(x[0], y[0]), zeq(x[1], y[1]), zeq(x[2], y[2]), zeq(x[3], y[3]))))
                 ctx.assume(zimplies(later, zand(z3.Implies(PASS_UF(*x), PASS_UF(*y)), z3.Implies(REJ_UF(*x), REJ_UF(*y)))))
+                # only more Yes weight, same expiry flag: a pass persists (C04.monotone_yes)
+                more_yes = zand(same_cfg, x[0] <= y[0], zeq(x[1], y[1]), zeq(x[2], y[2]), zeq(x[3], y[3]), y[0] + y[1] + y[2] + y[3] <= y[4], x[8] == y[8])
+                ctx.assume(zimplies(more_yes, z3.Implies(PASS_UF(*x), PASS_UF(*y))))
         ctx.kernel_calls.append(a)
         return P, R
 
